@@ -49,6 +49,8 @@ fn surface(deser: Deser) -> SurfaceCfg {
     s.bom = false;
     s.allow_cr = false;
     s.blank_cdata = false;
+    // quick-xml's and xml-rs' deserializers reject references to entities declared in a DTD
+    s.general_entities = false;
     if deser == Deser::SerdeXmlRs {
         // xml-rs is a validating-ish parser: keep to what it accepts for certain
         s.doctype_subset = false;
@@ -58,6 +60,43 @@ fn surface(deser: Deser) -> SurfaceCfg {
         s.pis = false;
     }
     s
+}
+
+/// `admits` of C01 for a preset without attribute prefix: attributes and child elements of an occurrence are looked up in
+/// one field namespace (sound because the C13 domain keeps them disjoint and free of namespace prefixes)
+fn admits_flat(n: &crate::model::Node, r: &crate::rendered::RNode, path: &str) -> Result<(), String> {
+    let here = format!("{}/{}", path, n.name);
+    for a in &n.attrs {
+        match r.child(a) {
+            None => return Err(format!("{}: attribute `{}` has no field bound to it in struct {}", here, a, r.struct_name)),
+            Some(f) if f.node.is_some() || f.vec => return Err(format!("{}: attribute `{}` is bound to field {} of type {}", here, a, f.ident, f.base)),
+            Some(_) => {}
+        }
+    }
+    for c in n.children() {
+        let f = r.child(&c.name).ok_or_else(|| format!("{}: child `{}` has no field bound to it in struct {}", here, c.name, r.struct_name))?;
+        match &f.node {
+            None => {
+                if !c.attrs.is_empty() || c.children().next().is_some() {
+                    return Err(format!("{}: child `{}` is typed String but this occurrence has attributes or child elements", here, c.name));
+                }
+            }
+            Some(sub) => admits_flat(c, sub, &here)?,
+        }
+    }
+    for f in &r.children {
+        let cnt = n.children().filter(|c| c.name == f.bound).count() + n.attrs.iter().filter(|a| **a == f.bound).count();
+        if !f.optional && cnt == 0 {
+            return Err(format!("{}: struct {} requires `{}` (field {}: {} is not Option) but this occurrence has neither an attribute nor a child of that name", here, r.struct_name, f.bound, f.ident, f.base));
+        }
+        if !f.vec && cnt > 1 {
+            return Err(format!("{}: `{}` occurs {} times but field {} of struct {} is not a Vec", here, f.bound, cnt, f.ident, r.struct_name));
+        }
+    }
+    if n.has_nonblank() && r.text.is_none() {
+        return Err(format!("{}: occurrence has character data but struct {} has no text field", here, r.struct_name));
+    }
+    Ok(())
 }
 
 impl ProgProp {
@@ -256,7 +295,7 @@ impl Property for ProgProp {
         };
         // stage 1 (cheap, many cases): necessary conditions for compilation, checked without rustc
         let pre_n: usize = std::env::var("XSGV_PRECHECK").ok().and_then(|s| s.parse().ok()).unwrap_or(match tier {
-            Tier::Quick => 40_000,
+            Tier::Quick => 100_000,
             Tier::Thorough => 1_500_000,
         });
         {
@@ -315,7 +354,21 @@ impl Property for ProgProp {
                                                     }
                                                 }
                                             } else {
-                                                Ok(())
+                                                // serde-xml-rs preset: no attribute prefix, so attributes and children share the field
+                                                // namespace (the domain keeps an element's attribute names distinct from its child names)
+                                                match crate::rendered::build_tree(&defs, "", &self.options().text_identifier) {
+                                                    Err(e) => Err(Failure::new(format!("the generated structs do not form a tree: {}", e)).with_signature("compile_error").with_detail(json!({"case": describe_case(&p), "generated_source": pc.source}))),
+                                                    Ok(tree) => {
+                                                        let mut r = Ok(());
+                                                        for (di, d) in p.case.docs.iter().enumerate() {
+                                                            if let Err(e) = admits_flat(d, &tree, "") {
+                                                                r = Err(Failure::new(format!("from_str cannot succeed for source document #{}: {}", di + 1, e)).with_signature("deserialize_error").with_detail(json!({"case": describe_case(&p), "generated_source": pc.source})));
+                                                                break;
+                                                            }
+                                                        }
+                                                        r
+                                                    }
+                                                }
                                             }
                                         }
                                     },
